@@ -32,7 +32,7 @@ pub struct Node {
 }
 
 fn free_port() -> u16 {
-    std::net::TcpListener::bind("127.0.0.1:0").and_then(|l| l.local_addr()).map(|a| a.port()).unwrap_or(0)
+    crate::util::private_port()
 }
 
 pub async fn start(cfg: Config, dir: PathBuf) -> Option<Node> {
